@@ -236,6 +236,18 @@ func RunIO(w *World, idx int) {
 				break
 			}
 		}
+		// every RW replica is lost while a replica is still rebuilding; a late verify request arrives
+		if modeCount(st, types.WO) == 1 && r.Chance(7) {
+			fs, modes := w.Attached()
+			for _, f := range fs {
+				if modes[f] == types.RW {
+					w.MonitorFail(f, true)
+				}
+			}
+			w.CheckSettled("all-RW-lost")
+			w.OrphanVerify()
+			break
+		}
 		kind := []string{"write", "write", "write", "read", "sync", "unmap"}[r.Intn(6)]
 		if w.Prop == "C04" && r.Chance(45) {
 			kind = "read"
@@ -296,6 +308,7 @@ func RunIO(w *World, idx int) {
 			w.CheckImages()
 		}
 	}
+	w.OrphanVerify()
 	w.CheckImages()
 	// final full read through every cursor position
 	st := w.C.VerifState()
@@ -454,7 +467,10 @@ func RunMembership(w *World, idx int) {
 					after = "verify"
 					if err != nil && !w.Dead {
 						if _, m := w.Attached(); m[f] == types.RW {
-							w.FailAny([]string{"C18", "C07"}, "verify-failed-but-listed-RW", fmt.Sprintf("VerifyRebuildReplica(%s) returned %q, yet the controller lists the replica RW", f.Addr, err.Error()))
+							f.mu.Lock()
+							rev := f.Rev
+							f.mu.Unlock()
+							w.FailAny([]string{"C18", "C07", "C10"}, "verify-failed-but-listed-RW", fmt.Sprintf("VerifyRebuildReplica(%s) returned %q (its revision counter is still %d, the step that equalises it failed), yet the controller lists the replica RW", f.Addr, err.Error(), rev))
 						}
 					}
 				}
@@ -889,9 +905,13 @@ func RunWorker(prop string, seed uint64, worker, cases int, out string) error {
 		j, _ := os.Create(jpath)
 		fmt.Fprintf(j, "{\"case\":%d,\"seed\":%d,\"prop\":%q,\"rf\":%d}\n", worker*100000+c, cs, prop, rf)
 		size := int64(r.Range(8, 64)) * 4096
-		w := NewWorld(prop, rf, size, r, res, 20+(propNo*16+worker)%200, (os.Getpid()*7)%250)
-		w.Seed, w.Case, w.Journal = cs, worker*100000+c, j
 		idx := worker*cases + c
+		caseRF := rf
+		if prop == "C09" && idx%8 == 5 {
+			caseRF = 5 // the concurrent re-registration scenario needs a majority left after two deletions
+		}
+		w := NewWorld(prop, caseRF, size, r, res, 20+(propNo*16+worker)%200, (os.Getpid()*7)%250)
+		w.Seed, w.Case, w.Journal = cs, worker*100000+c, j
 		runScenario(w, prop, idx)
 		w.Close()
 		j.Close()
@@ -928,10 +948,18 @@ func runScenario(w *World, prop string, idx int) {
 	case "C13":
 		RunSnapshots(w, idx)
 	case "C09":
+		if idx%8 == 5 {
+			RunElectionRace(w, idx)
+			return
+		}
 		RunElection(w, idx)
 	default:
 		if (prop == "C02" || prop == "C04") && idx%10 == 9 {
 			RunConcurrent(w, idx)
+			return
+		}
+		if (prop == "C02" || prop == "C05") && idx%10 == 7 {
+			RunRendezvous(w, idx)
 			return
 		}
 		if (prop == "C02" || prop == "C04" || prop == "C05") && idx%10 == 4 {
